@@ -16,7 +16,7 @@ LEVEL = "exploration"
 RULE = (
     "representation alphabet: for each region (5 simple polygons, opposite orientation / shifted / rescaled neighbours, "
     "composites hollow, ring, two, xtwo, unbounded, an equal-area translate of a hollow square; circle c8 and neighbours, "
-    "lens, mixed-degree rounded square, cubic blob; Empty, Whole) every rotation of the vertex/segment list, an inserted "
+    "lens, mixed-degree rounded square, cubic blob, pairs of different regions with identical control-point lists grouped into segments of different degrees; Empty, Whole) every rotation of the vertex/segment list, an inserted "
     "collinear vertex by construction and by split, curved segments split at 1/2, int / Fraction / float / mixed numbers of "
     "equal value, every permutation of holes/components, constructor vs operator vs copy vs deepcopy; the same for the "
     "closed curves themselves. ALL ordered pairs X == Y and X != Y on the real code: result is a bool equal to 'same "
@@ -197,6 +197,14 @@ def objects(tier):
     add("blob#split", "Q:blob", lambda: split_half(al.build_leaf("Q.blob"), (0,)))
     add("docs-curve", "Q:docs", lambda: lib.SimpleShape(lib.JordanCurve.from_ctrlpoints([[(0, 0), (4, 0)], [(4, 0), (4, 3), (0, 3)], [(0, 3), (0, 0)]])))
     add("docs-curve#rot", "Q:docs", lambda: lib.SimpleShape(lib.JordanCurve.from_ctrlpoints([[(0, 3), (0, 0)], [(0.0, 0.0), (4.0, 0.0)], [(4, 0), (4, 3), (0, 3)]])))
+    # different regions with the SAME control points in the same order from the same start
+    # point, grouped into segments of different degrees (equal areas for the octagon pair)
+    O = [(-1, -3), (3, -3), (3, -1), (3, 3), (1, 3), (-3, 3), (-3, 1), (-3, -3)]
+    add("cpX", "Q:cpX", lambda: lib.SimpleShape(lib.JordanCurve.from_ctrlpoints([[O[0], O[1], O[2]], [O[2], O[3]], [O[3], O[4]], [O[4], O[5], O[6]], [O[6], O[7]], [O[7], O[0]]])))
+    add("cpY", "Q:cpY", lambda: lib.SimpleShape(lib.JordanCurve.from_ctrlpoints([[O[0], O[1]], [O[1], O[2]], [O[2], O[3], O[4]], [O[4], O[5]], [O[5], O[6]], [O[6], O[7], O[0]]])))
+    add("cpX#float", "Q:cpX", lambda: lib.SimpleShape(lib.JordanCurve.from_ctrlpoints([[tuple(map(float, q)) for q in sg] for sg in ([O[0], O[1], O[2]], [O[2], O[3]], [O[3], O[4]], [O[4], O[5], O[6]], [O[6], O[7]], [O[7], O[0]])])))
+    add("cpsq", "Q:cpsq", lambda: poly([(0, 0), (2, 0), (2, 2), (0, 2)]))
+    add("cplens", "Q:cplens", lambda: lib.SimpleShape(lib.JordanCurve.from_ctrlpoints([[(0, 0), (2, 0), (2, 2)], [(2, 2), (0, 2), (0, 0)]])))
     add("ringc", "Q:ringc", lambda: circle(radius=3.0, ndivangle=8) - al.build_leaf("Q.lens"))
     add("ringc#ctor", "Q:ringc", lambda: lib.ConnectedShape([~rotated_segments(al.build_leaf("Q.lens"), 1), circle(radius=3.0, ndivangle=8)]))
     return out
@@ -215,7 +223,7 @@ def all_objects(tier):
     objs = objects(tier)
     curves = curve_objects(objs)
     if tier == "quick":
-        curves = curves[::2]
+        curves = curves[::2] + [c for c in curves[1::2] if c[0].startswith("J(cp")]
     return objs, curves
 
 
